@@ -15,6 +15,7 @@ import (
 	"time"
 
 	"github.com/B1NARY-GR0UP/originium"
+	"github.com/B1NARY-GR0UP/originium/types"
 
 	"verif/harness/vlib/hist"
 )
@@ -409,7 +410,11 @@ func (in *interp) doGet(lt *liveTxn, k int) {
 	in.checkRead(lt, k, got, ok)
 }
 
-func (in *interp) doSet(lt *liveTxn, k int, vlen int, del bool) {
+func (in *interp) doSet(lt *liveTxn, k int, vlen int, del bool, via ...int) {
+	mode := 0
+	if len(via) > 0 {
+		mode = via[0]
+	}
 	var err error
 	if !lt.m.rw {
 		// writing in a read-only transaction is misuse with a documented error
@@ -425,7 +430,13 @@ func (in *interp) doSet(lt *liveTxn, k int, vlen int, del bool) {
 		return
 	}
 	if del {
-		err = lt.tx.Delete(in.key(k))
+		if mode == 2 {
+			// a deletion expressed through the public SetEntry, carrying a value that must never be read
+			err = lt.tx.SetEntry(types.Entry{Key: in.key(k), Value: []byte("tombstone-payload"), Tombstone: true, Version: 7})
+			in.out.class("delete_via_setentry")
+		} else {
+			err = lt.tx.Delete(in.key(k))
+		}
 		if err == nil {
 			if _, ok := lt.m.buffer[k]; !ok {
 				lt.m.order = append(lt.m.order, k)
@@ -434,7 +445,13 @@ func (in *interp) doSet(lt *liveTxn, k int, vlen int, del bool) {
 		}
 	} else {
 		v := in.value(lt.m, vlen)
-		err = lt.tx.Set(in.key(k), []byte(v))
+		if mode == 1 {
+			// the public SetEntry with a caller-supplied Version (the engine must stamp its own)
+			err = lt.tx.SetEntry(types.Entry{Key: in.key(k), Value: []byte(v), Version: int64(1<<40 + k)})
+			in.out.class("set_via_setentry")
+		} else {
+			err = lt.tx.Set(in.key(k), []byte(v))
+		}
 		if err == nil {
 			if _, ok := lt.m.buffer[k]; !ok {
 				lt.m.order = append(lt.m.order, k)
@@ -623,7 +640,7 @@ func (in *interp) exec(o Op) {
 		}
 	case "set", "del":
 		if lt := in.pick(o.T); lt != nil {
-			in.doSet(lt, o.K%len(in.p.Keys), o.VLen, o.Op == "del")
+			in.doSet(lt, o.K%len(in.p.Keys), o.VLen, o.Op == "del", o.Via)
 		}
 	case "commit":
 		if lt := in.pick(o.T); lt != nil {
@@ -731,9 +748,9 @@ func (in *interp) doUpdate(o Op) {
 			case "get":
 				in.doGet(lt, k)
 			case "set":
-				in.doSet(lt, k, u.VLen, false)
+				in.doSet(lt, k, u.VLen, false, u.Via)
 			case "del":
-				in.doSet(lt, k, 0, true)
+				in.doSet(lt, k, 0, true, u.Via)
 			}
 		}
 		if o.FailAfter > 0 {
